@@ -14,6 +14,18 @@ Source shapes read as the same thing (each keeps the Python meaning; the list is
   * loops over a literal list OR tuple of names (also hoisted into a local or a module-level constant) are unrolled, so they
     equal the duplicated statements; `with open(p, 'w'): pass` = `open(p, 'w').close()` (any open call counts);
   * open mode given positionally, as `mode=`, or through a local bound to a literal; 'b'/'t' dropped;
+  * an open mode chosen at run time -- `'w' if <test> else 'a'` in place, or a local name bound to different literals /
+    conditional expressions anywhere in the function (branches of an `if`, re-bound inside a loop) -- is read flow-
+    insensitively as "any of the bound values": in the flat summary it is the WEAKEST of them (an append / a read unless every
+    value truncates), in the structured summary (`generationProg`) it carries the condition: `firstIteration` when the only
+    binding is `X if v == 0 else Y` (also `!=`, `v > 0`, `v >= 1`, `not v`, `v`) on the variable `v` of the innermost enclosing
+    loop of the same function, bound inside that loop and `v` not re-bound in it; `conditional` otherwise.  More than two
+    different modes, or a binding that is not a literal / conditional of literals: fail closed;
+  * loops: a `for` over a literal list/tuple of names is unrolled; every other `for`/`while` is a LOOP BLOCK of the structured
+    summary: its body may run any number of times including zero; `for v in range(e)` / `range(0, e)` visits the indices
+    0, 1, 2, ... in order (`skips = false`), every other loop may skip any index (`skips = true`).  Loops nested in a loop block
+    (directly or through a called function) are flattened into the body of the outermost one; a truncation inside such a nested
+    loop may not happen in a given outer iteration and is listed `conditional` with alternative `r` (see `blocks`);
   * os.system('mv a b') = os.rename/os.replace/shutil.move(a, b); os.system('rm a') = os.remove/os.unlink(a);
   * one level of helper inlining and source-order (not line-number) comparisons: extractors/_norm_c16.py (A, B);
   * the seeded-shuffle rule reads `numpy.` as `np.`; a generator object may be seeded by a literal, by a local only ever
@@ -200,7 +212,51 @@ def _table_names(stage):
     return _CACHE[k]
 
 
-def _open_mode(c, env, fname):
+def _mode_lit(mode, fname, lineno):
+    mode = mode.replace("b", "").replace("t", "") or "r"
+    if mode not in ("r", "w", "a"):
+        raise ExtractError("open mode %r at %s:%d not modelled" % (mode, fname, lineno))
+    return mode
+
+
+def _mode_arms(e, fname, lineno):
+    """literal modes an expression can evaluate to: a string constant, or (nested) `X if t else Y` of string constants"""
+    if isinstance(e, ast.Constant) and isinstance(e.value, str):
+        return [_mode_lit(e.value, fname, lineno)]
+    if isinstance(e, ast.IfExp):
+        return _mode_arms(e.body, fname, lineno) + _mode_arms(e.orelse, fname, lineno)
+    raise ExtractError("open mode %s at %s:%d is not a literal nor a conditional of literals" % (ast.unparse(e)[:30], fname, lineno))
+
+
+def _first_iteration_test(t, var):
+    """+1: the test holds exactly when the loop variable is 0; -1: exactly when it is not; None: something else"""
+    if var is None:
+        return None
+    isv = lambda x: isinstance(x, ast.Name) and x.id == var
+    isc = lambda x, k: isinstance(x, ast.Constant) and type(x.value) is int and x.value == k
+    if isv(t):
+        return -1
+    if isinstance(t, ast.UnaryOp) and isinstance(t.op, ast.Not) and isv(t.operand):
+        return +1
+    if isinstance(t, ast.Compare) and len(t.ops) == 1:
+        a, op, b = t.left, t.ops[0], t.comparators[0]
+        if isc(a, 0) and isv(b) and isinstance(op, (ast.Eq, ast.NotEq)):
+            a, b = b, a
+        if isv(a) and isc(b, 0):
+            return {ast.Eq: +1, ast.NotEq: -1, ast.Gt: -1, ast.LtE: +1}.get(type(op))
+        if isv(a) and isc(b, 1):
+            return {ast.GtE: -1, ast.Lt: +1}.get(type(op))
+    return None
+
+
+_WEAK_ORDER = {"a": 0, "r": 1, "rm": 2, "w": 3}
+
+
+def _open_mode(c, env, fname, fn=None, loop=None):
+    """-> (acc, cond, alt): the open performs `acc` when `cond` holds and `alt` otherwise; cond in always / firstIteration /
+    conditional.  For firstIteration `acc` is the mode of the iteration whose loop variable is 0.  For conditional the pair is
+    ordered strongest first (a truncating mode, if there is one, is `acc`).
+    `loop` = the innermost enclosing loop of the SAME function (dict(var, node)) or None."""
     m = c.args[1] if len(c.args) > 1 else None
     for kw in c.keywords:
         if kw.arg == "mode":
@@ -208,17 +264,51 @@ def _open_mode(c, env, fname):
         elif kw.arg is None:
             raise ExtractError("open(**...) at %s:%d not modelled" % (fname, c.lineno))
     if m is None:
-        return "r"
-    if isinstance(m, ast.Constant) and isinstance(m.value, str):
-        mode = m.value
-    elif isinstance(m, ast.Name) and isinstance(env.get(m.id), str) and "{" not in env[m.id]:
-        mode = env[m.id]
+        return "r", "always", "r"
+    site = None                         # the statement that decides the mode (for the firstIteration reading)
+    exprs = [m]
+    if isinstance(m, ast.Name):
+        stores = [n for n in ast.walk(fn) if isinstance(n, ast.Name) and n.id == m.id and isinstance(n.ctx, (ast.Store, ast.Del))] if fn is not None else []
+        binds = [n for n in ast.walk(fn) if isinstance(n, ast.Assign) and len(n.targets) == 1 and isinstance(n.targets[0], ast.Name)
+                 and n.targets[0].id == m.id] if fn is not None else []
+        params = [a.arg for a in (fn.args.posonlyargs + fn.args.args + fn.args.kwonlyargs)] if fn is not None else []
+        if stores:
+            # flow-insensitive: every value the name is ever bound to in this function (branches of an if, re-binding in a loop)
+            if len(stores) != len(binds) or m.id in params or any(isinstance(n, (ast.Global, ast.Nonlocal)) and m.id in n.names for n in ast.walk(fn)):
+                raise ExtractError("open mode %s at %s:%d: the name is bound in a way the translator does not read" % (m.id, fname, c.lineno))
+            exprs = [b.value for b in binds]
+            site = binds[0] if len(binds) == 1 else None
+        elif isinstance(env.get(m.id), str) and "{" not in env[m.id]:
+            exprs = [ast.Constant(env[m.id])]
+        else:
+            raise ExtractError("open mode %s at %s:%d is not a literal" % (ast.unparse(m)[:30], fname, c.lineno))
     else:
-        raise ExtractError("open mode %s at %s:%d is not a literal" % (ast.unparse(m)[:30], fname, c.lineno))
-    mode = mode.replace("b", "").replace("t", "") or "r"
-    if mode not in ("r", "w", "a"):
-        raise ExtractError("open mode %r at %s:%d not modelled" % (mode, fname, c.lineno))
-    return mode
+        site = m
+    arms = []
+    for e in exprs:
+        arms += _mode_arms(e, fname, c.lineno)
+    vals = sorted(set(arms), key=lambda a: -_WEAK_ORDER[a])
+    if len(vals) == 1:
+        return vals[0], "always", vals[0]
+    if len(vals) > 2:
+        raise ExtractError("open mode %s at %s:%d takes more than two values" % (ast.unparse(m)[:30], fname, c.lineno))
+    # two possible modes: is it `X if <loop variable is 0> else Y`, decided inside the loop whose variable it tests?
+    e = exprs[0] if len(exprs) == 1 else None
+    if e is not None and isinstance(e, ast.IfExp) and isinstance(e.body, ast.Constant) and isinstance(e.orelse, ast.Constant) and loop is not None \
+            and loop.get("var") is not None:
+        pol = _first_iteration_test(e.test, loop["var"])
+        node = loop["node"]
+        inside = any(n is (site if site is not None else e) for st in node.body for n in ast.walk(st))
+        rebound = any(isinstance(n, ast.Name) and n.id == loop["var"] and isinstance(n.ctx, (ast.Store, ast.Del)) for st in node.body for n in ast.walk(st))
+        if pol is not None and inside and not rebound:
+            first, later = (e.body, e.orelse) if pol > 0 else (e.orelse, e.body)
+            return _mode_lit(first.value, fname, c.lineno), "firstIteration", _mode_lit(later.value, fname, c.lineno)
+    return vals[0], "conditional", vals[1]
+
+
+def weakest(acc, cond, alt):
+    """the mode with the least guarantees among the possible ones (what the flat summary lists)"""
+    return acc if cond == "always" else min(acc, alt, key=lambda a: _WEAK_ORDER[a])
 
 
 def _seed_is_input(e, fn, kf):
@@ -385,7 +475,7 @@ def _state_checks(name, fn, funcs, memo):
     return unseeded, locs_bad
 
 
-def analyse(stage, files=None, entry_file=None):
+def analyse(stage, files=None, entry_file=None, structured=False):
     files = files or FILES
     entry_file = entry_file or FILES[0]
     funcs = {}
@@ -394,7 +484,25 @@ def analyse(stage, files=None, entry_file=None):
             if isinstance(n, ast.FunctionDef):
                 funcs[n.name] = n
     effs = []
+    effx = []                   # parallel to effs: condition / alternative mode / loop block of each effect
+    loops = []                  # enclosing loop blocks, outermost first (across inlined calls)
+    nloop = [0]
     visited = set()
+
+    def add(fname, lineno, key, acc, cond="always", alt=None):
+        effs.append((fname, lineno, key, weakest(acc, cond, alt if alt is not None else acc)))
+        effx.append(dict(acc=acc, cond=cond, alt=alt if alt is not None else acc, loop=loops[0]["id"] if loops else 0,
+                         skips=bool(loops) and loops[0]["skips"], depth=len(loops)))
+
+    class _Effs(object):        # effects of calls other than open(): unconditional
+        @staticmethod
+        def append(t):
+            add(*t)
+
+        @staticmethod
+        def extend(ts):
+            for t in ts:
+                add(*t)
 
     def callee(c):
         f = c.func
@@ -410,9 +518,11 @@ def analyse(stage, files=None, entry_file=None):
 
     def handle_call(c, env, fname, depth, stack):
         full = ast.unparse(c.func)
+        effs = _Effs
         if full == "open" and c.args:
-            mode = _open_mode(c, env, fname)
-            effs.append((fname, c.lineno, _key(_fmt(c.args[0], env)), mode))
+            inner = loops[-1] if loops and loops[-1]["fn"] == fname and loops[-1]["level"] == len(stack) else None
+            acc, cond, alt = _open_mode(c, env, fname, funcs.get(fname), inner)
+            add(fname, c.lineno, _key(_fmt(c.args[0], env)), acc, cond, alt)
         elif full in READERS and c.args:
             effs.append((fname, c.lineno, _key(_fmt(c.args[0], env)), "r"))
         elif full in WRITERS and c.args:
@@ -464,8 +574,30 @@ def analyse(stage, files=None, entry_file=None):
                         walk(st.body, e2, fname, depth, stack)
                 else:
                     visit_expr(st.iter, env, fname, depth, stack)
+                    # a loop block: the body may run any number of times (also zero); only `for v in range(e)` / `range(0, e)`
+                    # is known to visit the indices 0, 1, 2, ... in order without skipping any
+                    it = st.iter
+                    contiguous = isinstance(it, ast.Call) and isinstance(it.func, ast.Name) and it.func.id == "range" and not it.keywords and (
+                        len(it.args) == 1 or (len(it.args) == 2 and isinstance(it.args[0], ast.Constant) and it.args[0].value == 0)) \
+                        and isinstance(st.target, ast.Name) and "range" not in norm._bound_names(funcs[fname])
+                    nloop[0] += 1
+                    loops.append(dict(id=nloop[0], skips=not contiguous, var=st.target.id if isinstance(st.target, ast.Name) else None,
+                                      node=st, fn=fname, level=len(stack)))
+                    try:
+                        walk(st.body, env, fname, depth, stack)
+                    finally:
+                        loops.pop()
+                    walk(st.orelse, env, fname, depth, stack)
+            elif isinstance(st, ast.While):
+                nloop[0] += 1
+                loops.append(dict(id=nloop[0], skips=True, var=None, node=st, fn=fname, level=len(stack)))
+                try:
+                    visit_expr(st.test, env, fname, depth, stack)
                     walk(st.body, env, fname, depth, stack)
-            elif isinstance(st, (ast.If, ast.While)):
+                finally:
+                    loops.pop()
+                walk(st.orelse, env, fname, depth, stack)
+            elif isinstance(st, ast.If):
                 visit_expr(st.test, env, fname, depth, stack)
                 walk(st.body, env, fname, depth, stack)
                 walk(st.orelse, env, fname, depth, stack)
@@ -517,15 +649,46 @@ def analyse(stage, files=None, entry_file=None):
             continue                    # only what the generation stage can reach
         u, l = _state_checks(name, fn, funcs, memo)
         unseeded += u; locs_bad += l
+    if structured:
+        return effs, unseeded, locs_bad, effx
     return effs, unseeded, locs_bad
+
+
+def blocks(effs, effx):
+    """[(kind, skips, [(fname, line, key, acc, cond, alt)])]: maximal runs of effects of the same loop block (0 = straight-line).
+    An effect inside a loop nested in the block's loop may not happen in a given iteration of the outer loop: a truncation
+    there is listed as `conditional` with alternative `r` (the weakest reading: no guarantee, the file must already be fresh)."""
+    out = []
+    for (f, ln, k, _), m in zip(effs, effx):
+        acc, cond, alt = m["acc"], m["cond"], m["alt"]
+        if m["depth"] >= 2:
+            if cond == "firstIteration":
+                cond = "conditional"
+            if acc in ("w", "rm") or alt in ("w", "rm"):
+                acc, cond, alt = (acc if acc in ("w", "rm") else alt), "conditional", ("r" if alt in ("w", "rm") and acc in ("w", "rm") else min(acc, alt, key=lambda a: _WEAK_ORDER[a]))
+        if not out or out[-1][0] != m["loop"]:
+            out.append((m["loop"], m["skips"], []))
+        out[-1][2].append((f, ln, k, acc, cond, alt))
+    return out
+
+
+def _lean_block(b):
+    loop, skips, ops = b
+    body = ",\n".join("    ⟨⟨%s, %d, %s, .%s⟩, .%s, .%s⟩" % (lstr(f), ln, lstr(k), acc, cond, alt) for f, ln, k, acc, cond, alt in ops)
+    return ("  .loop %s [\n%s]" % ("true" if skips else "false", body)) if loop else ("  .straight [\n%s]" % body)
 
 
 @extract.extractor("Effects")
 def gen(stage):
-    effs, unseeded, locs_bad = analyse(stage)
+    effs, unseeded, locs_bad, effx = analyse(stage, structured=True)
     t = extract.header("Effects", FILES)
     t += "open ESR.Effects in\n/-- file effects of duplicate_checker.main and its callees, in execution order -/\ndef generation : List ESR.Effects.Eff := [\n"
     t += ",\n".join("  ⟨%s, %d, %s, .%s⟩" % (lstr(f), ln, lstr(k), a) for f, ln, k, a in effs)
+    t += "\n  ]\n\n"
+    t += ("/-- the same stage with its structure: open modes chosen at run time keep their condition, and the effects inside a\n"
+          "`for`/`while` over a run-time collection form a loop block (`false`: `for v in range(e)`, no index skipped) -/\n"
+          "def generationProg : ESR.Effects.Prog := [\n")
+    t += ",\n".join(_lean_block(b) for b in blocks(effs, effx))
     t += "\n  ]\n\n"
     for name, rel in FIT_STAGES:
         fe, _, _ = analyse(stage, FIT_FILES, rel)
